@@ -15,6 +15,8 @@ package c15
 import (
 	"fmt"
 	"os"
+	"regexp"
+	"runtime"
 	"sort"
 	"strconv"
 	"strings"
@@ -212,6 +214,64 @@ func inconclusive(reason string) {
 	hx.Inconclusive(reason)
 }
 
+// lockedInDebugger looks through a dump of all goroutines for one that is blocked acquiring a lock (not waiting on a
+// condition variable, which is where a suspended thread legitimately sits) below a frame of the debugger. Such a
+// goroutine, seen after the bound with nothing else moving, is a final state: Go locks have no timeouts.
+var lockWait = regexp.MustCompile(`^goroutine \d+ \[(sync\.(RW)?Mutex\.(R)?Lock|semacquire)(, \d+ minutes)?\]:`)
+
+func lockedInDebugger() string {
+	buf := make([]byte, 1<<20)
+	for {
+		n := runtime.Stack(buf, true)
+		if n < len(buf) {
+			buf = buf[:n]
+			break
+		}
+		buf = make([]byte, 2*len(buf))
+	}
+	for _, g := range strings.Split(string(buf), "\n\n") {
+		if lockWait.MatchString(g) && strings.Contains(g, "interpreter.(*ecalDebugger).") {
+			if len(g) > 1500 {
+				g = g[:1500]
+			}
+			return g
+		}
+	}
+	return ""
+}
+
+// dbgCall makes one call of the debugger's interface under a watchdog. A call which has not returned after the bound
+// while no hold is active, no thread visits a statement any more and a goroutine sits in a lock acquisition below the
+// debugger is a violation (the debugger's lock is held for good: no suspended thread can be resumed any more);
+// a call that is merely slow makes the case inconclusive. ok=false: give up the case.
+func dbgCall(w *wrapDbg, s *sched.Sched, what, src string, f func()) (fail *hx.Failure, ok bool) {
+	ret := make(chan struct{})
+	go func() { f(); close(ret) }()
+	select {
+	case <-ret:
+		return nil, true
+	case <-time.After(stuckBound + 10*time.Second):
+	}
+	a := atomic.LoadInt64(&w.nvis)
+	time.Sleep(500 * time.Millisecond)
+	b := atomic.LoadInt64(&w.nvis)
+	time.Sleep(500 * time.Millisecond)
+	select {
+	case <-ret:
+		return nil, true
+	default:
+	}
+	if g := lockedInDebugger(); g != "" && a == b && b == atomic.LoadInt64(&w.nvis) && s.ActiveHolds() == 0 {
+		if stuckBound > 3*time.Second {
+			stuckBound = 3 * time.Second
+		}
+		return hx.Failf("debugger-locked-up", "%s has not returned after %v, no thread visits a statement any more and a goroutine is blocked acquiring a lock inside the debugger (suspended threads cannot be resumed any more); hook counters %v\n%s\n%s",
+			what, stuckBound+11*time.Second, s.Counts(), g, src), false
+	}
+	inconclusive("c15." + what + "-slow")
+	return nil, false
+}
+
 func runCase(c Case) (fail *hx.Failure) {
 	if gaveUp.Load() {
 		hx.E.Exclude("not-run.after-inconclusive")
@@ -364,7 +424,10 @@ func runCase(c Case) (fail *hx.Failure) {
 			continue
 		default:
 		}
-		st, _ := inner.Status().(map[string]interface{})
+		var st map[string]interface{}
+		if f, ok := dbgCall(w, s, "status", src, func() { st, _ = inner.Status().(map[string]interface{}) }); !ok {
+			return f
+		}
 		threads, _ := st["threads"].(map[string]map[string]interface{})
 		acted := false
 		for k, ts := range threads {
@@ -392,7 +455,11 @@ func runCase(c Case) (fail *hx.Failure) {
 			contSusp[tid64] = resumed[tid64]
 			suspMu.Unlock()
 			contAt[tid64] = time.Now()
-			inner.Continue(tid64, map[string]util.ContType{"resume": util.Resume, "stepin": util.StepIn, "stepover": util.StepOver, "stepout": util.StepOut}[cmd])
+			if f, ok := dbgCall(w, s, "continue("+cmd+")", src, func() {
+				inner.Continue(tid64, map[string]util.ContType{"resume": util.Resume, "stepin": util.StepIn, "stepover": util.StepOver, "stepout": util.StepOut}[cmd])
+			}); !ok {
+				return f
+			}
 			verifhook.At("h.continue", tid64)
 			acted = true
 		}
@@ -430,6 +497,15 @@ func runCase(c Case) (fail *hx.Failure) {
 				}
 			}
 			if !finished && time.Since(lastProgress) > stuckBound+20*time.Second {
+				if g := lockedInDebugger(); g != "" && s.ActiveHolds() == 0 {
+					// no thread is waiting for a command we have not given (those were judged above), nothing has
+					// visited a statement for the whole bound, and a goroutine sits in a lock acquisition of the debugger
+					if stuckBound > 3*time.Second {
+						stuckBound = 3 * time.Second
+					}
+					return hx.Failf("debugger-locked-up", "the debugged program has not visited a statement for %v (the plain run ended at once) and a goroutine is blocked acquiring a lock inside the debugger; status: %v; hook counters %v\n%s\n%s",
+						time.Since(lastProgress).Round(time.Millisecond), threads, s.Counts(), g, src)
+				}
 				inconclusive("c15.session-did-not-finish")
 				return nil
 			}
